@@ -235,6 +235,55 @@ def networks(tier, seed):
                  mk_reaction([S("H2"), S("D")], [S("HD"), S("H")], alpha=6.0)]
         return Net(reacs)
     yield "spellings", spellings
+
+    def isotopologues():
+        # rare isotopes spelled with a leading mass number: the main and the rare isotopologue, as gas and as ice, are four species
+        fresh_species_state()
+        from naunet.species import Species
+        from naunet.network import Network as Net
+        els = [e for e in Species.default_elements] + ["13C", "15N", "18O"]
+        Species.set_known_elements(list(els))
+        from naunet import chemistrydata
+        chemistrydata.update_binding_energy({"#13CO": 1150.0, "#C18O": 1150.0, "#15NH2": 3960.0, "#NH2": 3960.0})
+        rs = [(["C", "O"], ["CO"]), (["13C", "O"], ["13CO"]), (["CO"], ["#CO"]), (["13CO"], ["#13CO"]), (["#CO"], ["CO"]), (["#13CO"], ["13CO"]),
+              (["13C+", "CO"], ["C+", "13CO"]), (["C+", "e-"], ["C"]), (["13C+", "e-"], ["13C"]), (["C", "18O"], ["C18O"]), (["C18O"], ["#C18O"]),
+              (["N", "H2"], ["NH2"]), (["15N", "H2"], ["15NH2"]), (["NH2"], ["#NH2"]), (["15NH2"], ["#15NH2"]), (["#15NH2", "#13CO"], ["15NH2", "#13CO"]),
+              (["#13CO", "#NH2"], ["13CO", "NH2"])]
+        net = Net([mk_reaction(a, b, alpha=float(k + 1)) for k, (a, b) in enumerate(rs)], elements=list(els))
+        net._vf_declared_names = {n for a, b in rs for n in a + b}
+        net._vf_declared_reactions = [(list(a), list(b)) for a, b in rs]
+        return net
+    yield "isotopologue-ices", isotopologues
+
+    def caller_owned_lists():
+        # reactions built through the API from lists the caller keeps and edits for the next reaction: a reaction is what was passed
+        # when it was created
+        fresh_species_state()
+        from naunet.species import Species
+        from naunet.network import Network as Net
+        from naunet.reactions.reaction import Reaction
+        from naunet.reactiontype import ReactionType
+        declared, reacs = [], []
+        lhs, rhs = [Species("H2"), Species("e-")], [Species("H"), Species("H"), Species("e-")]
+        for k, (first, prod) in enumerate([("H2", ["H", "H"]), ("HD", ["H", "D"]), ("D2", ["D", "D"])]):
+            lhs[0] = Species(first)
+            rhs[0], rhs[1] = Species(prod[0]), Species(prod[1])
+            reacs.append(Reaction(lhs, rhs, -1.0, -1.0, float(k + 1), 0.0, 0.0, ReactionType.GAS_TWOBODY, -1))
+            declared.append(([first, "e-"], prod + ["e-"]))
+        names = ["H+", "H2"]
+        reacs.append(Reaction(names, ["H3+"], -1.0, -1.0, 7.0, 0.0, 0.0, ReactionType.GAS_TWOBODY, -1))
+        declared.append((["H+", "H2"], ["H3+"]))
+        names[0] = "D+"
+        names.append("He")
+        reacs.append(Reaction(names[:2], ["H2D+"], -1.0, -1.0, 8.0, 0.0, 0.0, ReactionType.GAS_TWOBODY, -1))
+        declared.append((["D+", "H2"], ["H2D+"]))
+        lhs.clear()
+        rhs.clear()
+        net = Net(reacs)
+        net._vf_declared_names = {n for a, b in declared for n in a + b}
+        net._vf_declared_reactions = declared
+        return net
+    yield "caller-owned-lists", caller_owned_lists
     rnd = random.Random(1234 + seed)
     alphabet = ["H", "H2", "C", "CH", "O", "CO", "e-", "H+", "C+", "He"]
     nrand = 6 if tier == "quick" else 40
@@ -319,6 +368,30 @@ class Rendered:
                 data.setdefault(int(i), []).append(rhs.replace("y_cur[", "y["))
         csr = {"rows": rows, "cols": cols, "data": data}
         return None, csr
+
+
+def eval_numdens(phys_text, macros, yvals):
+    """value of the rendered GetNumDens on a concrete vector (mini C front end, loops unrolled); None when the body is
+    outside the fragment (the deductive obligation tmpl/physics/GetNumDens reports that as undecided)"""
+    import z3
+    from pyvc import cmini
+    body = function_body(strip_comments(phys_text), r"double\s+GetNumDens\s*\([^)]*\)\s*\{")
+    if not body:
+        return None
+    try:
+        stmts = cmini.parse_body(cmini.strip(body))
+        arr = z3.K(z3.IntSort(), z3.RealVal(0))
+        for i, v in enumerate(yvals):
+            arr = z3.Store(arr, i, z3.RealVal(str(v)))
+        consts = {k: z3.IntVal(v) for k, v in macros.items() if isinstance(v, int) and not isinstance(v, bool)}
+        ex = cmini.Exec(consts, {}, max_unroll=100000)
+        st = ex.run(stmts, cmini.State({}, {"y": arr}))
+        r = z3.simplify(st.retval)
+        if z3.is_rational_value(r):
+            return Fraction(r.numerator_as_long(), r.denominator_as_long())
+    except Exception:
+        return None
+    return None
 
 
 def rnd_env(macros, rnd, n_eq, nreac, extra_idents=()):
@@ -584,6 +657,18 @@ def check_network(label, net, tier, seed, want):
                     for s in proc.reactants:
                         t *= yv[species.index(s)]
                 csum += t
+            # particle density of the temperature equation: npar is bound to GetNumDens of the state vector and GetNumDens,
+            # as rendered, adds up the species abundances only (the temperature slot is not a particle)
+            fbody = strip_comments(R.fex_text)
+            mnp = re.search(r"\bnpar\s*=\s*([^;]+);", fbody)
+            if not mnp:
+                V("C01", "particle-density-binding: the equation body never defines npar", backend=bname)
+            elif re.sub(r"\s+", "", mnp.group(1)) not in ("GetNumDens(y)", "GetNumDens(y_cur)"):
+                V("C01", f"particle-density-binding: npar = {mnp.group(1).strip()!r}, expected GetNumDens of the state vector", backend=bname)
+            nd = eval_numdens(R.files.get(f"src/naunet_physics.{R.ext}", ""), mac, yv[:neq_expected])
+            if nd is not None and nd != sum(yv[:nspec], Fraction(0)):
+                V("C01", f"particle-density: GetNumDens(y) = {nd} for y = {[str(x) for x in yv[:neq_expected]]} (last slot is the temperature), "
+                  f"sum of the {nspec} species abundances is {sum(yv[:nspec], Fraction(0))}", backend=bname)
             want_t = (idents["gamma"] - 1) * (hsum - csum) / idents["kerg"] / idents["npar"]
             if tslot not in got:
                 V("C01", "fex-missing: temperature equation", backend=bname)
@@ -691,7 +776,7 @@ def check_network(label, net, tier, seed, want):
 COLLIDERS = {"CIC_HI": ["H", "e-"], "CIC_HeI": ["He", "e-"], "CIC_HeII": ["He+", "e-"], "CIC_He_2S": ["He+", "e-", "e-"],
              "RC_HII": ["H+", "e-"], "RC_HeI": ["He+", "e-"], "RC_HeII": ["He+", "e-"], "RC_HeIII": ["He++", "e-"],
              "CEC_HI": ["H", "e-"], "CEC_HeII": ["He+", "e-"]}
-_ELEMS = ["GRAIN", "He", "Si", "Mg", "Fe", "Na", "Cl", "H", "D", "C", "N", "O", "S", "P", "F"]
+_ELEMS = ["GRAIN", "13C", "15N", "18O", "He", "Si", "Mg", "Fe", "Na", "Cl", "H", "D", "C", "N", "O", "S", "P", "F"]
 
 
 def indep_identity(name):
@@ -708,6 +793,8 @@ def indep_identity(name):
             if body.startswith(e, i):
                 i += len(e)
                 mm = re.match(r"\d+", body[i:])
+                if mm and any(body.startswith(iso, i) for iso in ("13C", "15N", "18O")):
+                    mm = None      # the digits are the mass number of the next (rare isotope) element, not a count
                 n = int(mm.group()) if mm else 1
                 if mm:
                     i += mm.end()
